@@ -571,15 +571,19 @@ class FileStoragePacker(FileStorageFormatter):
                         # we're looking at isn't a dup of the current
                         # record. There's a bug in ZEO blob support that causes
                         # duplicate data records.
+                        # (Also, an undo of several transactions writes
+                        # several records of an object in one transaction.
+                        # A record of that transaction we keep needs the
+                        # file - unless it is an un-creation.)
+                        kept = list(self.gc.reach_ex.get(h.oid, ()))
                         rpos = self.gc.reachable.get(h.oid)
-                        is_dup = False
                         if rpos:
-                            # (An undo of several transactions may leave
-                            # the object un-created in the end: that is
-                            # no duplicate, the file is not needed.)
+                            kept.append(rpos)
+                        is_dup = False
+                        for rpos in kept:
                             cur = self._read_data_header(rpos)
-                            is_dup = cur.tid == h.tid and (
-                                cur.plen or cur.back)
+                            if cur.tid == h.tid and (cur.plen or cur.back):
+                                is_dup = True
                         if not is_dup:
                             if (h.oid not in self.gc.reachable and
                                     h.oid not in self.gc.written_later):
